@@ -128,6 +128,27 @@ def check_monoid(inp):
         if not close(st.result(), ref3.result()):
           return (f'{k}: merging single-example statistics as {nm} gives {np.asarray(st.result())}, the fold '
                   f'from zero() gives {np.asarray(ref3.result())}')
+  # metrics that differ in ONE constructor argument, batch-evaluated in the same process: evaluate_batch is jitted with the
+  # metric as a static argument, so a field left out of ==/hash would silently reuse the other metric's trace
+  if seq and n > 0:
+    ncls = d['logits'].shape[-1]
+    variants = [(M.SequenceTokenAccuracy, dict(logits_mask=None)),
+                (M.SequenceTokenAccuracy, dict(logits_mask=tuple([0.0] + [-1e9] * (ncls - 1)))),
+                (M.SequenceTokenAccuracy, dict(logits_mask=tuple([-1e9] + [0.0] * (ncls - 1)))),
+                (M.SequenceTokenTopKAccuracy, dict(k=2, logits_mask=None)),
+                (M.SequenceTokenTopKAccuracy, dict(k=2, logits_mask=tuple([-1e9] * (ncls - 1) + [0.0])))]
+    pb = batches(d, n, [n], n + 1, seed)[0]
+    for cls_, kw in variants:
+      m = cls_(**kw)
+      st = m.zero()
+      for i in range(n):
+        ex = {kk: jnp.asarray(v[i]) for kk, v in d.items()}
+        st = st.merge(m.evaluate_example(ex, jnp.asarray(d['logits'][i])))
+      got = M.evaluate_batch(m, {kk: jnp.asarray(v) for kk, v in pb.items() if kk != cds.EXAMPLE_MASK_KEY},
+                             jnp.asarray(pb['logits']), jnp.asarray(pb[cds.EXAMPLE_MASK_KEY])).result()
+      if not close(got, st.result()):
+        return (f'{cls_.__name__}({kw}): batched evaluation {np.asarray(got)} differs from the merge of single-example '
+                f'statistics {np.asarray(st.result())} (another metric of the same class was batch-evaluated before in this process)')
   empty = models.evaluate_model(model, None, [])
   for k in mm:
     if np.any(np.asarray(empty[k]) != 0):
